@@ -212,3 +212,30 @@ Definition run_gap8 (n : net g8) : (Z * Z) * (Z * Z) * list (Z * Z) :=
 Definition run_mix (theta c : list Q) : Z * Z := qpair (mix_cost theta c).
 Definition run_mps (thin thw : list Q) (c : list (list Q)) : Z * Z := qpair (mps_layer_cost thin thw c).
 Definition run_wavg (w c : list Q) : Z * Z := qpair (wavg w c).
+
+(* ------------------------------------------------------------------ softmax coefficients (MPS / SuperNet): theta = g(alpha)/sum g(alpha), g abstract *)
+
+(* cost of a layer whose coefficients are the g-softmax of alpha *)
+Definition sm_cost (g : Q -> Q) (alpha c : list Q) : Q := wavg (map g alpha) c.
+
+(* closed form of d/d alpha_j [ (sum_k w_k c_k) / (sum_k w_k) ] with d w_j = gp (quotient rule) *)
+Definition d_sm_cost (w c : list Q) (j : nat) (gp : Q) : Q := gp * (nth j c 0 - wavg w c) / qsum w.
+
+(* the same derivative, honestly, through dual numbers *)
+Definition dual_div (a b : dual) : dual :=
+  {| dv := dv a / dv b; dd := (dd a * dv b - dv a * dd b) / (dv b * dv b) |}.
+Definition d_wavg (w : list dual) (c : list Q) : dual :=
+  dual_div (dsum (map (fun p => dmul (fst p) (dconst (snd p))) (combine w c))) (dsum w).
+(* seed: dd = gp on element j, 0 elsewhere *)
+Fixpoint seedw (w : list Q) (j : nat) (gp : Q) : list dual :=
+  match w, j with
+  | [], _ => []
+  | x :: t, O => {| dv := x; dd := gp |} :: map dconst t
+  | x :: t, S j' => dconst x :: seedw t j' gp
+  end.
+
+(* built-in bit-cost shapes: params_bit: size = k * cin * cout ; ops_bit: size = MACs * activation bits *)
+Definition bit_cost (bits size : Q) : Q := bits * size.
+Definition bit_costs (precs : list Q) (size : Q) : list Q := map (fun b => bit_cost b size) precs.
+
+Definition run_sm_grad (w c : list Q) (j : nat) (gp : Q) : Z * Z := qpair (dd (d_wavg (seedw w j gp) c)).
